@@ -414,6 +414,12 @@ class SymBool:
 
     __ror__ = __or__
 
+    def __xor__(self, o):
+        o = as_b(o)
+        return _mkbool(X.bor(X.band(self.b, X.bnot(o)), X.band(X.bnot(self.b), o)))
+
+    __rxor__ = __xor__
+
     def __eq__(self, o):
         o = as_b(o)
         return _mkbool(X.bor(X.band(self.b, o), X.band(X.bnot(self.b), X.bnot(o))))
